@@ -771,7 +771,9 @@ _WHITESPACE_CHARS = [ord(b"\t"), ord(b" ")]
 
 
 def _parse_string(value: bytes) -> bytes:
-    value_array = bytearray(value.strip())
+    # Only strip what git treats as whitespace around a value; vertical tab
+    # and form feed are ordinary characters to git and part of the value.
+    value_array = bytearray(value.strip(b" \t\r\n"))
     ret = bytearray()
     whitespace = bytearray()
     in_quotes = False
